@@ -55,7 +55,13 @@ def run(run):
             nb = [j for j in range(12) if j != i and abs(geo.dot(centres[i], centres[j]) - s5) < 1e-9]
             j = rng.choice(nb)
             a, b = centres[i], centres[j]
-            if m < 0.7:
+            if m < 0.46:
+                # next to the face centre (apex of the ten triangles): 3e-8 .. 3e-3 rad away, any azimuth
+                r = 10 ** rng.uniform(-7.5, -2.5)
+                u1 = geo.unit(geo.cross(a, b)); u2 = geo.cross(a, u1)
+                az = rng.uniform(0, 2 * math.pi)
+                w = [x + r * (math.cos(az) * p1 + math.sin(az) * p2) for x, p1, p2 in zip(a, u1, u2)]
+            elif m < 0.7:
                 # towards the shared edge: point on the great circle from centre i to centre j at fraction t (0.5 = the edge), nudged
                 t = rng.choice([0.5, 0.5 + 1e-9, 0.5 - 1e-9, 0.5 + 1e-13, 0.49, 0.3, 1e-9, 0.0, rng.uniform(0, 0.5)])
                 w = [x + t * (y - x) for x, y in zip(a, b)]
@@ -118,7 +124,9 @@ def run(run):
         if rng.random() < 0.3:
             # next to the internal seams (multiples of 36 degrees), the centre, the edge
             g = rng.randrange(10) * math.pi / 5 + rng.choice([0.0, 1e-12, -1e-12, 1e-9, -1e-9])
-            rho = rng.choice([1e-12, 1e-9, 1e-3, 0.3, 0.6])
+            rho = rng.choice([1e-12, 1e-9, 1e-3, 0.3, 0.6, 10 ** rng.uniform(-7.5, -3)])
+            if rng.random() < 0.3:
+                g = rng.uniform(-math.pi, math.pi)
             x, y = rho * math.cos(g), rho * math.sin(g)
             if not inside(face, x, y):
                 continue
@@ -141,9 +149,9 @@ def run(run):
         worst_planar = max(worst_planar, err)
         if not err <= 1e-12:
             run.violation(f"inverse then forward moves a planar point of the face pentagon by {err:.3e}", [q, qf], f"({x!r},{y!r}) -> {b}")
-    run.rule = ("sphere points: 40% uniform, 30% on the great circle between two neighbouring face centres (at the shared edge +-1e-13..1e-9, near a centre, random) with lateral offset, "
+    run.rule = ("sphere points: 40% uniform, 6% at 3e-8..3e-3 rad from a face centre (small-angle branch of the inverse), 24% on the great circle between two neighbouring face centres (at the shared edge +-1e-13..1e-9, near a centre, random) with lateral offset, "
                 "30% within 0..1e-3 of a dodecahedron vertex; each projected relative to its nearest AND second-nearest face and unprojected again; "
-                "planar points inside the face pentagon (30% next to the ten internal seams, the centre and the edge) x all 12 faces, unprojected and re-projected; "
+                "planar points inside the face pentagon (30% next to the ten internal seams, the centre (down to 3e-8) and the edge) x all 12 faces, unprojected and re-projected; "
                 "non-trivial = distinct sphere-point requests within 1e-6 (dot product) of a face seam")
     run.samples = [{"request": reqs[i], "impl": impl[i], "model": model[i]} for i in rng.sample(range(len(reqs)), 5)]
     run.extra["worst_roundtrip_nearest_rad"] = worst["nearest"]
